@@ -3,7 +3,7 @@ PROP = dict(
              "Shangrla.Props.RiskLimitPlurality", "Shangrla.Props.RiskLimitComparison", "Shangrla.Props.RiskLimitIID", "Shangrla.Props.RiskLimitIRVComparison",
              "Shangrla.Props.RiskLimitIRV", "Shangrla.Props.RiskLimitComparisonFull",
              "Shangrla.Props.RiskLimitComparisonOutcome", "Shangrla.Props.RiskLimitIRVComparisonFull",
-             "Shangrla.Props.RiskLimitOutcome"],
+             "Shangrla.Props.RiskLimitOutcome", "Shangrla.Props.RiskLimitConsistentSampling"],
     theorems=["Shangrla.C09.pvalues_are_tests", "Shangrla.C09.pvalues_are_tests_pos", "Shangrla.C09.contest_max",
               "Shangrla.C09.audit_max", "Shangrla.C09.audit_max_nan_iff", "Shangrla.C09.audit_max_largest",
               "Shangrla.C09.proved_sticky", "Shangrla.C09.proved_of_le", "Shangrla.C09.dicts_mirror",
@@ -82,7 +82,20 @@ PROP = dict(
               "Shangrla.RiskLimit.audit_outcome_risk_limit",
               "Shangrla.RiskLimit.pair_name_clash", "Shangrla.RiskLimit.example_k2_wrong", "Shangrla.RiskLimit.example_k2_hall",
               "Shangrla.RiskLimit.example_k2_hall_comparison",
-              "Shangrla.RiskLimit.example_outcome_polling_exact", "Shangrla.RiskLimit.example_outcome_comparison_exact"],
+              "Shangrla.RiskLimit.example_outcome_polling_exact", "Shangrla.RiskLimit.example_outcome_comparison_exact",
+              # with C07 / C10: the multi-round audit with consistent sampling (sample numbers = a uniformly random
+              # order, adaptive per-contest sizes, literal Rounds.step) — fraction of the n! orders on which it is ever
+              # reported complete <= risk limit; hitG as a count over the n! orders (also registered under C07)
+              "Shangrla.RiskLimit.count_ordersF", "Shangrla.RiskLimit.hitG_eq_count", "Shangrla.RiskLimit.orders_length",
+              "Shangrla.RiskLimit.mem_orders_iff", "Shangrla.RiskLimit.orders_nodup",
+              "Shangrla.RiskLimit.sortedPairs_cvrList", "Shangrla.RiskLimit.cs_contest_data_prefix",
+              "Shangrla.RiskLimit.step_closed", "Shangrla.RiskLimit.roundComplete_forces",
+              "Shangrla.RiskLimit.csLoop_prefix", "Shangrla.RiskLimit.csAudit_ever",
+              "Shangrla.RiskLimit.csAudit_fraction_le_hitG", "Shangrla.RiskLimit.pLe_style_run_bound",
+              "Shangrla.RiskLimit.consistent_sampling_audit_risk_limit",
+              "Shangrla.RiskLimit.csLoop_eq_spec", "Shangrla.RiskLimit.csAudit_eq_spec",
+              "Shangrla.RiskLimit.example_cs_count", "Shangrla.RiskLimit.example_cs_count_round1",
+              "Shangrla.RiskLimit.example_cs_exact"],
     groups={"status": (1200, 12000), "auditrisk": (60, 600)},
     design_ref="DESIGN.md section 5, C09",
     assumptions=["the statistical test and the data extraction (asn.test.test, Assertion.mvrs_to_data) are parameters of "
